@@ -120,7 +120,8 @@ func c12(c *Sexp) *Sexp {
 			for j := 0; j < al.Length(); j++ {
 				tipstates := make(map[string]string)
 				for i, n := range names {
-					tipstates[n] = seqs[i][j : j+1]
+					// the nucleotide at the site, case-insensitively (a and A are the same state)
+					tipstates[n] = strings.ToUpper(seqs[i][j : j+1])
 				}
 				sites.List = append(sites.List, c12RunAcr(c.Get("tree"), tipstates, c12AcrAlgo(c.Str("algo"))))
 			}
